@@ -2,18 +2,17 @@
 
 Extracts, with Python's `ast` only (the module is never imported here):
 
-  * `defaults`   the `_default_config` table of the settings class, in source
-                 order, each value rendered as a token (see `enc_value`);
-  * `setters`    the properties of the class that have a setter;
-  * `layers`     what the `self._config.update(...)` calls of `update_settings`
-                 lay over the memory, in source order: `self.<table>` or the
-                 `self.<file attribute>` a local was `json.load`ed from
-                 (default < stored < user);
-  * `writers`    for `_set_setting` / `default_settings`: does the body call
-                 `self._write()`;
-  * `opaque`     every construct the translator did not understand (any entry
-                 makes the `translated_completely` obligation of Props/C18 fail:
-                 an unknown construct never passes silently).
+  * `defaults`      the `_default_config` table of the settings class (the class
+                    of the module-level `simulaqron_settings` object), in source
+                    order, each value rendered as a token (see `enc_value`);
+  * `untranslated`  every construct the translator did not understand (any
+                    entry makes the `translated_completely` obligation of
+                    Props/C18 fail: an unknown construct never passes silently).
+
+Only the table is extracted.  How `update_settings`, `_set_setting` and
+`default_settings` use it is not read off the syntax (a harmless restructuring
+must not raise an alarm); their behaviour is tied to the model by executing
+them (harness/props/c18.py).
 
 Value rendering: the canonical JSON text `json.dumps(v, sort_keys=True,
 separators=(",", ":"))` with `%` and ` ` percent-encoded, so that a value is one
@@ -132,8 +131,7 @@ def extract(settings_py):
                 and isinstance(node.value.func, ast.Name):
             cls_name = node.value.func.id
     cls = next((n for n in tree.body if isinstance(n, ast.ClassDef) and n.name == cls_name), None)
-    facts = {"class": cls_name, "defaults": [], "symbolic": {}, "setters": [], "getters": [], "layers": [],
-             "writers": [], "opaque": opaque}
+    facts = {"class": cls_name, "defaults": [], "symbolic": {}, "opaque": opaque}
     if cls is None:
         opaque.append("settings-class-not-found")
         return facts
@@ -159,51 +157,6 @@ def extract(settings_py):
             else:
                 tok = enc_value(val)
             facts["defaults"].append((enc_key(k.value), tok))
-    funcs = {}
-    for st in cls.body:
-        if isinstance(st, ast.FunctionDef):
-            for d in st.decorator_list:
-                if isinstance(d, ast.Attribute) and d.attr == "setter" and isinstance(d.value, ast.Name):
-                    facts["setters"].append(d.value.id)
-                if isinstance(d, ast.Name) and d.id == "property":
-                    facts["getters"].append(st.name)
-            funcs.setdefault(st.name, st)
-
-    def self_calls(fn, attr_path):
-        """calls `self.<attr_path>(...)` inside fn, in source order"""
-        out = []
-        for n in ast.walk(fn):
-            if isinstance(n, ast.Call) and ast.unparse(n.func) == "self." + attr_path:
-                out.append(n)
-        return sorted(out, key=lambda n: (n.lineno, n.col_offset))
-
-    if "update_settings" in funcs:
-        fn = funcs["update_settings"]
-        # local variable -> the `self.<attr>` file it was json-loaded from
-        loaded = {}
-        for n in ast.walk(fn):
-            if isinstance(n, ast.With) and len(n.items) == 1:
-                ce = n.items[0].context_expr
-                if isinstance(ce, ast.Call) and ast.unparse(ce.func) == "open" and ce.args \
-                        and isinstance(ce.args[0], ast.Attribute) and ast.unparse(ce.args[0].value) == "self":
-                    for b in ast.walk(n):
-                        if isinstance(b, ast.Assign) and len(b.targets) == 1 and isinstance(b.targets[0], ast.Name) \
-                                and isinstance(b.value, ast.Call) and ast.unparse(b.value.func) == "json.load":
-                            loaded[b.targets[0].id] = ce.args[0].attr
-        for c in self_calls(fn, "_config.update"):
-            if len(c.args) == 1 and isinstance(c.args[0], ast.Name) and c.args[0].id in loaded:
-                facts["layers"].append(loaded[c.args[0].id])
-            elif len(c.args) == 1 and isinstance(c.args[0], ast.Attribute) and ast.unparse(c.args[0].value) == "self":
-                facts["layers"].append(c.args[0].attr)
-            else:
-                opaque.append("layer:" + ast.unparse(c))
-    else:
-        opaque.append("update_settings-missing")
-    for name in ("_set_setting", "default_settings"):
-        if name in funcs:
-            facts["writers"].append((name, bool(self_calls(funcs[name], "_write"))))
-        else:
-            opaque.append(name + "-missing")
     return facts
 
 
@@ -229,16 +182,6 @@ def render(facts):
         "/-- `%s._default_config`, in source order -/" % facts["class"],
         "def defaults : List (String × String) :=",
         "  " + lst("(%s, %s)" % (lean_str(k), lean_str(v)) for k, v in facts["defaults"]),
-        "",
-        "/-- properties of the settings class that have a setter -/",
-        "def setters : List String := " + lst(lean_str(enc_key(s)) for s in facts["setters"]),
-        "",
-        "/-- what the `self._config.update(..)` calls of `update_settings` lay over the memory, in source order -/",
-        "def layers : List String := " + lst(lean_str(s) for s in facts["layers"]),
-        "",
-        "/-- does the method call `self._write()` -/",
-        "def writers : List (String × Bool) := " + lst("(%s, %s)" % (lean_str(n), "true" if b else "false")
-                                                        for n, b in facts["writers"]),
         "",
         "/-- constructs the translator did not understand (must be empty) -/",
         "def untranslated : List String := " + lst(lean_str(enc_key(s)) for s in facts["opaque"]),
